@@ -28,9 +28,9 @@ def boundary_values(F, hdr, lp):
 
 class C03(Prop):
     id = 'C03'
-    lean_modules = ['RSocketModel.Props.C03']
+    lean_modules = ['RSocketModel.Props.C03', 'RSocketModel.Props.C03Source']
     technique = 'Lean 4 proof (refinement of the three-phase loop to a uniform recursion, induction; cache fold) + differential correspondence through the wire'
-    level_text = ('c03_first_type_and_n, c03_follows_all_but_last, c03_complete_only_last, c03_metadata_before_data, c03_concat, c03_progress, '
+    level_text = ('c03_fragment_frames_match_source (Props/C03Source.lean): the step from a fragment to a wire frame (Fragment.toFrame: type of first / later fragments, FOLLOWS on all but the last, COMPLETE only on the last, request-n only on the first) is proved to be the meaning of rsocket/frame.py: new_frame_fragment as translated from its AST on every run (Gen/Fragments.lean). c03_first_type_and_n, c03_follows_all_but_last, c03_complete_only_last, c03_metadata_before_data, c03_concat, c03_progress, '
                   'c03_fits_single and c03_reassemble_exact are kernel-checked for all metadata/data, all F >= the regenerated minimum, both framings and the '
                   'five types of the regenerated table; the size clause is proved as c03_size_partial (<= F+3; <= F without metadata) and its full-strength '
                   'form is refuted by c03_size_counterexample, replayed on the implementation as a recorded finding. The model is a transcription of '
